@@ -35,6 +35,16 @@ CHECKS = {
          "Runs WatermarkedStream on every timestamp sequence of a small dense domain (exhaustively up to a stated length, randomly beyond) under every watermark/late-data configuration and checks, after every add_event, monotonicity, the watermark value, the late/on-time decision, routing by unique event id and the counter identities. Held = no step of any explored sequence broke a clause.",
          "Trusts the harness's shadow bookkeeping (ids, max timestamp) and that lateness <= bound is 'allowed'. Says nothing about Periodic/Custom strategies (wall-clock driven, not in the statement).",
          "DESIGN.md §5 C13"),
+ "C14": ("exploration",
+         "reference-model trace monitor over ALL merges of two arrival orders (exhaustive small scope + seeded random pairs), driving StreamJoinNode directly and through StreamJoinManager, with and without watermark updates",
+         "Every JoinedEvent returned by process_left/process_right/update_watermark (or delivered to the manager's handler) is tagged with harness-assigned unique ids and compared with the reference inner join of the events that have arrived: nothing outside the reference, nothing twice, and a reference pair may be missing only if its first-arrived side was eligible for eviction (watermark - ts > window) at a watermark update before the partner arrived; without watermark updates the emitted multiset must equal the reference exactly and emitted sets are also compared directly between merges. For every generated pair (<=4+4 events, 1-3 keys, keyless events, ts 0..6, windows 0/1/2/5 s, condition true or l.v<=r.v) all <=70 merges are run; all pairs of <=2+2 events over a stated small domain are enumerated with every placement and value of one watermark update. Held = no listed run broke a clause.",
+         "Window and timestamps in whole seconds (the node's as_secs() convention; the millisecond wording is not judged). Unique event ids assumed. Which eligible events are evicted is not prescribed. Only Inner + TimeWindow; outer joins, count/session windows, self-joins and watermark regress are outside the statement.",
+         "DESIGN.md §5 C14"),
+ "C16": ("exploration",
+         "four differential monitors over generated op histories and a hostile value domain: indexed vs never-indexed alpha memory, beta lookup vs scan of live facts, memoised vs direct node evaluation, conclusion index vs scan of enabled rules' Set actions; exhaustive over all value pairs of the domain",
+         "After every operation of every generated history (<=10 ops) the optimised answer is compared with the plain one: AlphaMemoryIndex::filter for every field x every domain value against a shadow instance that never creates an index; BetaMemoryIndex::lookup for every printed key against the harness's list of live facts; every MemoizedEvaluator::evaluate against evaluate_typed on fact sets that print alike but differ in type; ConclusionIndex::find_candidates >= enabled present rules with a Set on the goal's field, for goals with every documented operator, spacing, string literals holding operator text, and negation. All (stored, probe) value pairs and all print-alike pairs x operators x literals are enumerated. Held = no comparison broke, apart from the listed known findings.",
+         "alpha 'without index' is the library's own linear path. beta keys are Debug renderings (its own test's convention). The memo closure is evaluate_typed itself. conclusion: unique rule names while present, only Set counts as 'assigns', single-field goals only; inside BackwardEngine an empty index answer falls back to a linear scan, which masks the two conclusion findings at engine level.",
+         "DESIGN.md §5 C16"),
  "C18": ("exploration",
          "online step monitor with an independent reference model (strict/liberal bounds) over exhaustive and random operation sequences on ModuleManager; full public snapshot after every operation",
          "Runs the real ModuleManager on every operation sequence of a stated length over a reduced 36-operation alphabet (create/delete/export/add-rule/imports incl. self-imports, other types and patterns, MAIN, re-exports) from three start prefixes, and on random sequences of up to 7 operations over the full alphabet, with deletions and re-creations of imported modules. After every operation it checks that declarations and import_graph among existing modules are acyclic, that a refused import changed nothing, that every visibility query on an existing module answers, and that is_rule_visible / get_visible_rules lie between a strict and a liberal reading of the statement (identical when no re-export or outlived declaration is involved) and agree with each other. Held = no step of any explored sequence broke a clause other than the pinned known findings.",
